@@ -118,7 +118,7 @@ def check_dtype(repo, res, fns):
                 if not ok:
                     sp, de = (b, a) if neg else (a, b)
                     res.add(mk_finding(PROP, "M-DTYPE", fn, node, f"{fn.qualname}: the sparse branch builds the matrix with dtype {sorted(sp)} and the dense branch with {sorted(de)}; products and sums of the two forms then differ (a narrower integer type wraps), so sparse and dense outputs of the functions built on it are not equal", role="dtype"))
-    res.floor("sparse/dense construction pairs with explicit dtypes", n, 3)
+    res.floor("sparse/dense construction pairs with explicit dtypes", n, 2)
 
 
 def local_defs(fn, name):
